@@ -54,6 +54,21 @@ def mc(ctx, tag, consts, invariants, expect=None, properties=(), spec='Spec',
     os.remove(os.path.join(SPEC, cfg))
 
 
+def _replay_job(job):
+    from harness.drivers import lifecycle
+    steps, chans, reject, final, win = job
+    return lifecycle.replay(steps, chans, reject, final=final, win=win)
+
+
+def par_replay(jobs, procs=8):
+    """Independent replays on several cores (fork; results in job order)."""
+    import multiprocessing as mp
+    if len(jobs) < 16:
+        return [_replay_job(j) for j in jobs]
+    with mp.get_context('fork').Pool(procs) as pool:
+        return pool.map(_replay_job, jobs, chunksize=8)
+
+
 class Batch:
     """Design-check runs collected and executed a few at a time (every TLC
     start costs a JVM start; the runs are independent)."""
@@ -282,8 +297,8 @@ def main(ctx):
             ('twoacc', dict(Chans='{1, 2}', MaxOps=6), n, 70),
             ('data', dict(MaxOps=7, WithData='TRUE'), n * 2, 70),
             ('data2', dict(Chans='{1, 2}', MaxOps=8, WithData='TRUE'), n, 80),
-            ('flow', dict(flow, MaxOps=9), n, 90),
-            ('flowcut', dict(WithData='TRUE', Win=2, MaxOps=7), n // 2, 80)]
+            ('flow', dict(flow, MaxOps=9), n * 2 // 3, 90),
+            ('flowcut', dict(WithData='TRUE', Win=2, MaxOps=7), n // 3, 80)]
     total = 0
     for name, consts, num, depth in sims:
         traces, d = sim(f'c09_sim_{name}', consts, num, depth, ctx.seed + 3)
@@ -291,10 +306,9 @@ def main(ctx):
         chans = [int(x) for x in d['Chans'].strip('{}').split(',')]
         reject = [int(x) for x in d['Reject'].strip('{}').split(',')
                   if x.strip()]
-        for steps in traces:
-            if len(steps) < 2:
-                continue
-            r = lifecycle.replay(steps, chans, reject, win=d['Win'])
+        traces = [steps for steps in traces if len(steps) >= 2]
+        for r in par_replay([(steps, chans, reject, None, d['Win'])
+                             for steps in traces]):
             r['l1'] = [b for b in r['l1']
                        if not b.startswith('DataBeforeClose')]   # C07's
             total += 1
@@ -326,14 +340,14 @@ def main(ctx):
     # reachable quiescent state; each is replayed and the implementation's
     # final state compared with that state
     deep = [('cover1', dict(MaxOps=5 if quick else 6, WithData='TRUE',
-                            ConnOps='FALSE', Cuts=0), 400 if quick else 6000),
+                            ConnOps='FALSE', Cuts=0), 300 if quick else 6000),
             ('cover2', dict(MaxOps=4 if quick else 5, WithData='TRUE'),
-             450 if quick else 5000),
+             400 if quick else 5000),
             ('cover3', dict(Chans='{1, 2}', Reject='{2}', MaxOps=4 if quick
                             else 5, WithData='TRUE', ConnOps='FALSE'),
-             350 if quick else 4000),
+             300 if quick else 4000),
             ('coverF', dict(flow, MaxOps=6 if quick else 7),
-             400 if quick else 8000)]
+             300 if quick else 8000)]
 
     def cls(script, st):
         return (str([st[k] for k in ('ss', 'rs', 'reading', 'createW',
@@ -366,10 +380,9 @@ def main(ctx):
         ctx.coverage.setdefault('state_classes_covered', 0)
         ctx.coverage['state_classes_covered'] += len(first)
         ctx.coverage[f'scripts_{name}'] = (len(first), len(scripts))
-        for script, final in (first + rest)[:keep]:
-            steps = [(lbl, None) for lbl in script]
-            r = lifecycle.replay(steps, chans, reject, final=final,
-                                 win=d['Win'])
+        for r in par_replay([([(lbl, None) for lbl in script], chans, reject,
+                              final, d['Win'])
+                             for script, final in (first + rest)[:keep]]):
             r['l1'] = [b for b in r['l1']
                        if not b.startswith('DataBeforeClose')]   # C07's
             total += 1
